@@ -1,6 +1,7 @@
 package main
 
 import (
+	"go/token"
 	"math"
 	"strconv"
 )
@@ -37,3 +38,87 @@ func fmtFloatBits(c float64) string {
 
 func mathFloat64bits(c float64) uint64 { return math.Float64bits(c) }
 func formatUintHex(u uint64) string    { return strconv.FormatUint(u, 16) }
+
+func intFloatOfConcrete(v float64) (*Term, bool) {
+	if v == math.Trunc(v) && math.Abs(v) < 1<<52 {
+		return mkBV(uint64(int64(v)), 64), true
+	}
+	return nil, false
+}
+
+// intFloatArith: exact integer semantics for + - < <= > >= on integer-valued
+// floats without a multiplication chain.  Sound as long as every intermediate
+// stays below 2^53 in magnitude, which the harnesses guarantee by bounding
+// their inputs (stated in their assumptions).
+func (in *Interp) intFloatArith(op token.Token, x, y value) (value, bool) {
+	xi, xok := x.(intFloat)
+	yi, yok := y.(intFloat)
+	if !xok && !yok {
+		return nil, false
+	}
+	if xok && xi.chain != "" || yok && yi.chain != "" {
+		return nil, false
+	}
+	inf := 0 // sign of a concrete infinity operand, side recorded below
+	side := 0
+	var xt, yt *Term
+	if xok {
+		xt = xi.t
+	} else if xf, ok := x.(float64); ok {
+		if math.IsInf(xf, 0) {
+			inf, side = int(math.Copysign(1, xf)), 1
+		} else if t, ok := intFloatOfConcrete(xf); ok {
+			xt = t
+		} else {
+			return nil, false
+		}
+	} else {
+		return nil, false
+	}
+	if yok {
+		yt = yi.t
+	} else if yf, ok := y.(float64); ok {
+		if math.IsInf(yf, 0) {
+			inf, side = int(math.Copysign(1, yf)), 2
+		} else if t, ok := intFloatOfConcrete(yf); ok {
+			yt = t
+		} else {
+			return nil, false
+		}
+	} else {
+		return nil, false
+	}
+	if inf != 0 {
+		// comparisons against an infinity are constants; arithmetic yields it
+		less := (side == 2 && inf > 0) || (side == 1 && inf < 0) // x < y ?
+		switch op {
+		case token.LSS, token.LEQ:
+			return less, true
+		case token.GTR, token.GEQ:
+			return !less, true
+		case token.ADD:
+			return math.Inf(inf), true
+		case token.SUB:
+			if side == 1 {
+				return math.Inf(inf), true
+			}
+			return math.Inf(-inf), true
+		}
+		return nil, false
+	}
+	switch op {
+	case token.ADD:
+		return intFloat{t: mkBin("bvadd", xt, yt)}, true
+	case token.SUB:
+		return intFloat{t: mkBin("bvsub", xt, yt)}, true
+	case token.LSS:
+		return fromTerm(mkCmp("bvslt", xt, yt)), true
+	case token.LEQ:
+		return fromTerm(mkCmp("bvsle", xt, yt)), true
+	case token.GTR:
+		return fromTerm(mkCmp("bvslt", yt, xt)), true
+	case token.GEQ:
+		return fromTerm(mkCmp("bvsle", yt, xt)), true
+	}
+	return nil, false
+}
